@@ -18,6 +18,7 @@ CONSTANTS Kind,      \* "flat" | "hnsw" | "ivf" | "pq" | "ivfpq"
           NList, QC, VC, EpsC,
           TrueD, QErr,  \* pq kinds: true Euclidean distance table and quantisation error per pool vector
           CodeD,     \* pq kinds: CodeD[v] = [code, chosen, best] (see CodeOK)
+          HnswExact, \* hnsw: results are exact while at most this many rows are resident (2M when ef >= 2M; 0 = never claimed)
           ReAddOK    \* TRUE: re-adding a tombstoned id replaces the stale row (to-be); FALSE: the stale tombstone hides it (R1)
 
 VARIABLES rows, dead, trained
@@ -26,7 +27,7 @@ vvars == <<rows, dead, trained>>
 NeedsTraining == Kind \in {"ivf", "pq", "ivfpq"}
 Quantised == Kind \in {"pq", "ivfpq"}
 Clustered == Kind \in {"ivf", "ivfpq"}
-Exhaustive == Kind # "hnsw"
+Exhaustive == Kind # "hnsw" \/ Len(rows) <= HnswExact
 
 Resident == {rows[i].id : i \in DOMAIN rows}
 LiveRows == {r \in RangeOf(rows) : r.id \notin dead}
